@@ -102,6 +102,8 @@ Cat == <<
     V(Poly(Sq(0, 0, 8), << << <<0, 4>>, <<3, 2>>, <<3, 6>>, <<0, 4>> >> >>)),       \* hole touches a shell edge
     V(Poly(Sq(0, 0, 8), << << <<0, 0>>, <<4, 2>>, <<2, 4>>, <<0, 0>> >> >>)),       \* hole touches a shell vertex
     V(Poly(Sq(0, 0, 8), << Sq(2, 2, 2), Sq(4, 4, 2) >>)),                           \* two holes touching each other
+    V(Poly(Sq(0, 0, 8), << << <<1, 1>>, <<6, 1>>, <<1, 6>>, <<1, 1>> >>, Sq(4, 4, 3) >>)), \* a triangular hole listed first whose bounding box covers the square hole
+    V(Poly(Sq(0, 0, 8), << Sq(4, 4, 3), << <<1, 1>>, <<6, 1>>, <<1, 6>>, <<1, 1>> >> >>)), \* the same, holes in the other order
     D(Poly(Sq(0, 0, 8), << << <<4, 0>>, <<6, 4>>, <<4, 8>>, <<2, 4>>, <<4, 0>> >> >>)), \* hole touches the shell twice (interior disconnected: not valid)
     V(Poly(CShape, <<>>)), V(Poly(LShape, <<>>)), V(Poly(UShape, <<>>)), V(Poly(Rev(UShape), <<>>)),
     V(Poly(Comb, <<>>)), V(Poly(Arrow, <<>>)), V(Poly(Zig, <<>>)), V(Poly(Diamond, <<>>)), V(Poly(Spiral, <<>>)),
